@@ -256,6 +256,25 @@ func (bucket *Bucket) getOrCreateCollection(name sgbucket.DataStoreNameImpl, orC
 	}
 }
 
+// getCurrentCollection returns the collection of that name as the database has it now. Unlike
+// getCollection it does not trust this handle's cache, whose entry is stale if the collection was
+// dropped and re-created (under a new ID) through another handle of the bucket.
+func (bucket *Bucket) getCurrentCollection(name sgbucket.DataStoreNameImpl) (*Collection, error) {
+	bucket.mutex.Lock()
+	defer bucket.mutex.Unlock()
+
+	id, err := bucket._getCollectionID(name.Scope, name.Collection)
+	if err == sql.ErrNoRows {
+		return nil, sgbucket.MissingError{Key: name.String()}
+	} else if err != nil {
+		return nil, err
+	}
+	if collection, ok := bucket.collections[name]; ok && collection.id == id {
+		return collection, nil
+	}
+	return bucket._initCollection(name, id), nil
+}
+
 func (bucket *Bucket) getOpenCollectionByID(id CollectionID) *Collection {
 	bucket.mutex.Lock()
 	defer bucket.mutex.Unlock()
@@ -331,7 +350,8 @@ func (bucket *Bucket) expireDocuments() (int64, error) {
 	}
 	var count int64
 	for _, name := range names {
-		if coll, err := bucket.getCollection(name.(sgbucket.DataStoreNameImpl)); err != nil {
+		// (the expiry pass runs on the bucket's shared instance, whose cache no handle keeps current)
+		if coll, err := bucket.getCurrentCollection(name.(sgbucket.DataStoreNameImpl)); err != nil {
 			return 0, err
 		} else if n, err := coll.expireDocuments(); err != nil {
 			return 0, err
